@@ -570,5 +570,18 @@ func modelTypeImplements(t types.Type, it *types.Interface) (bool, bool) {
 	if t == ctxModelType {
 		return true, true
 	}
+	if t == rtypeModelType {
+		// the synthetic dynamic type of reflect.Type values: implements reflect.Type (and the empty interface)
+		if it.NumMethods() == 0 {
+			return true, true
+		}
+		for i := 0; i < it.NumMethods(); i++ {
+			switch it.Method(i).Name() {
+			case "Kind", "String", "Elem", "ChanDir", "AssignableTo", "NumIn", "NumOut", "IsVariadic", "In", "Out":
+				return true, true
+			}
+		}
+		return false, true
+	}
 	return false, false
 }
